@@ -1061,3 +1061,11 @@ neutral('n-f7-reverted-but-guarded', S,
         "        except (RuntimeError, QueueShutDown):\n            # Queue was shut down or the event loop is closing",
         "        except (asyncio.CancelledError, RuntimeError, QueueShutDown):\n            # Queue was shut down or the event loop is closing",
         'polling absorbs CancelledError again, but the run loop re-checks cancelling() after the step: the cancellation is still honoured (C16 holds)')
+mut('c15-unbounded-idle-poll', 'C15', ['C15.6'], S,
+    "            has_next_event, _pending = await asyncio.wait({get_next_queued_event}, timeout=wait_for_timeout)\n",
+    "            poll_timeout = None if self._on_idle.is_set() else wait_for_timeout\n            has_next_event, _pending = await asyncio.wait({get_next_queued_event}, timeout=poll_timeout)\n",
+    'once the idle flag is up the run loop sleeps without bound: a waiter that cleared the flag is never woken')
+mut('c15-await-get-directly', 'C15', ['C15.6'], S,
+    "                # Get task timed out, cancel it cleanly to suppress warnings\n                get_next_queued_event.cancel()\n",
+    "                # Get task timed out, keep waiting for it\n                return await get_next_queued_event\n",
+    'after the poll timed out the run loop blocks on the queue without bound')
